@@ -345,6 +345,11 @@ static void server_handle (const NiceAddress *srv, const NiceAddress *from, cons
     stun_agent_init_response (&ag, &rep, buf, sizeof buf, &fake); stun_message_append_xor_addr (&rep, STUN_ATTRIBUTE_XOR_MAPPED_ADDRESS, &ss, sizeof ss); server_reply (sv, from, &rep, &ag, buf, NULL, 0); return; }
   int errcode = 0;
   if (!strncmp (sv->mode, "err", 3)) errcode = atoi (sv->mode + 3);
+  if (!strcmp (sv->mode, "loop300")) { /* two servers (ports 3478 / 3479) that send every client to each other for ever */
+    stun_agent_init_error (&ag, &rep, buf, sizeof buf, &req, 300);
+    NiceAddress alt = sv->addr; nice_address_set_port (&alt, nice_address_get_port (&alt) == 3478 ? 3479 : 3478); struct sockaddr_storage as; nice_address_copy_to_sockaddr (&alt, (struct sockaddr *) &as);
+    stun_message_append_addr (&rep, STUN_ATTRIBUTE_ALTERNATE_SERVER, (struct sockaddr *) &as, sizeof as);
+    server_reply (sv, from, &rep, &ag, buf, NULL, 0); return; }
   if (errcode) { stun_agent_init_error (&ag, &rep, buf, sizeof buf, &req, errcode);
     if (errcode == 401 || errcode == 438) { stun_message_append_string (&rep, STUN_ATTRIBUTE_REALM, "realm"); char nonce[32]; sprintf (nonce, "nonce%d", sv->count); stun_message_append_string (&rep, STUN_ATTRIBUTE_NONCE, nonce); }
     if (errcode == 300) { NiceAddress alt = sv->addr; nice_address_set_port (&alt, nice_address_get_port (&alt) + 1 + sv->count % 3); struct sockaddr_storage as; nice_address_copy_to_sockaddr (&alt, (struct sockaddr *) &as);
@@ -369,6 +374,10 @@ static void server_handle (const NiceAddress *srv, const NiceAddress *from, cons
       stun_message_append_string (&rep, STUN_ATTRIBUTE_REALM, "realm"); char nonce[32]; sprintf (nonce, "nonce%d", sv->count); stun_message_append_string (&rep, STUN_ATTRIBUTE_NONCE, nonce);
       server_reply (sv, from, &rep, &ag, buf, NULL, 0); return; }
     stun_agent_init_response (&ag, &rep, buf, sizeof buf, &req);
+    if (strstr (sv->mode, "nat")) { /* the client sits behind a NAT: XOR-MAPPED-ADDRESS of the Allocate success is 198.51.c.e, a server reflexive address the agent learns from the relay */
+      char ip[64]; nice_address_to_string (from, ip); unsigned a_, b_, c_, e_; NiceAddress mapped = *from;
+      if (sscanf (ip, "%u.%u.%u.%u", &a_, &b_, &c_, &e_) == 4) { char nip[64]; sprintf (nip, "198.51.%u.%u", c_, e_); nice_address_set_from_string (&mapped, nip); nice_address_set_port (&mapped, nice_address_get_port (from)); }
+      nice_address_copy_to_sockaddr (&mapped, (struct sockaddr *) &ss); }
     NiceAddress rel = sv->addr; nice_address_set_port (&rel, 50000 + sv->count); struct sockaddr_storage rs; nice_address_copy_to_sockaddr (&rel, (struct sockaddr *) &rs);
     stun_message_append_xor_addr (&rep, STUN_ATTRIBUTE_RELAY_ADDRESS, &rs, sizeof rs);
     stun_message_append_xor_addr (&rep, STUN_ATTRIBUTE_XOR_MAPPED_ADDRESS, &ss, sizeof ss);
